@@ -106,7 +106,10 @@ def judge(key, e, damaged_img, relaxed=False):
     if obs["rows"] is None:
         return False, "directory-not-listed", {"observed": obs["listing"][:200]}
     # every other item still listed with its original printed name and type
-    want_rows = list(base["rows"])
+    want_rows = list(base["rows"] or [])
+    if len(want_rows) != len(items) + (1 if key == "roland" else 0):
+        # the UNDAMAGED image does not even list all its items with this code: nothing to compare with
+        return False, "undamaged-image-incomplete", {"expected_items": len(items), "rows": want_rows[:6]}
     others = [i for i in range(len(items)) if i != e]
     missing = []
     have = list(obs["rows"])
